@@ -2,7 +2,7 @@
 From PV Require Import Engine EngineProofs.
 Open Scope string_scope.
 Notation RG := (list val -> option string -> option string -> st -> R).
-Notation RP := (string -> option (list val) -> option string -> option string -> st -> R).
+Notation RP := (string -> option (list string) -> option (list val) -> option string -> option string -> st -> R).
 
 (** the iterable is formatted exactly once, before the first iteration *)
 Theorem C05_foreach_evaluated_once : forall (rg : RG) (rp : RP) sp k s fe v items,
